@@ -8,7 +8,8 @@
   `pid_exists()`, `wait_procs()`, …) in the middle of a history;
 * extra families judged by the C02 oracle: objects of mixed classes, module-level calls, `hash()` taken right after
   construction and compared with `hash()` at the end of the history (stability), hash classes compared with the
-  model's BOTH ways (model level), and the `btime 0` histories judged by the SPECIFICATION (finding C02-boottime-zero).
+  model's BOTH ways (model level), and the `btime 0` histories judged by the SPECIFICATION (the histories of the former
+  finding C02-boottime-zero, fixed in /repo 29257b1: no tolerance, a disagreement there is a violation).
 """
 import ast
 
@@ -167,8 +168,8 @@ class Impl2(c01.Impl):
 # ------------------------------------------------------------------------------ oracles on top of c01.first_problem
 
 def bt0_region(hist):
-    """region of finding C02-boottime-zero: some psutil call runs while the published boot time is 0 (that is when
-    `BOOT_TIME = 0.0` can be captured)"""
+    """some psutil call runs while the published boot time is 0 (that is when `BOOT_TIME = 0.0` can be captured): the
+    histories in which the former finding C02-boottime-zero showed.  Coverage feature only — nothing is tolerated there"""
     bt = hist["btime"]
     for o in hist["ops"]:
         if o["op"] == "setbtime":
@@ -179,8 +180,8 @@ def bt0_region(hist):
 
 
 def judged_by_spec(hist):
-    """the C02 clauses are claimed for this history: readable stat files, and — boot time — either never 0 or the
-    family that is judged by the specification on purpose (finding region)"""
+    """the C02 clauses are claimed for this history: readable stat files (`hyp` is cleared by the generators of the
+    unreadable-stat families only; any boot time, 0 included, is inside the theorems: x:btime0 always is judged)"""
     if any(o["op"] == "hide" and o["on"] for o in hist["ops"]):
         return False
     return bool(hist.get("hyp", True)) or hist.get("family", "").startswith("x:btime0")
@@ -274,8 +275,8 @@ def extra_history(rng, clk, n):
 
 
 def btime0_history(rng, clk):
-    """a machine that boots at the epoch (published btime 0) and whose clock is stepped later: INSIDE C02's quantifier,
-    judged by the specification"""
+    """a machine that boots at the epoch (published btime 0) and whose clock is stepped later: INSIDE C02's quantifier and
+    inside the theorems (C02_any_boot_full), judged by the specification"""
     P = c01.Plan(rng, 0, clk)
     p = rng.choice(c01.PIDS)
     P.ev(op="spawn", pid=p)
@@ -302,11 +303,11 @@ def btime0_history(rng, clk):
         P.ev(op="eq", i=0, j=P.nobj - 1)
     if P.nobj:
         P.effect_call(0)
-    return P.hist("x:btime0", hyp=False)
+    return P.hist("x:btime0", hyp=True)
 
 
 def corpus():
-    w = {"btime": 0, "family": "x:btime0:witness", "hyp": False, "ops": [
+    w = {"btime": 0, "family": "x:btime0:witness", "hyp": True, "ops": [
         {"op": "spawn", "pid": 8}, {"op": "new", "pid": 8}, {"op": "setbtime", "b": 5}, {"op": "new", "pid": 8},
         {"op": "eq", "i": 0, "j": 1}, {"op": "is_running", "i": 0}]}
     harmless = {"btime": 3, "family": "x:btime-later-0", "hyp": True, "ops": [        # only the FIRST capture matters
@@ -357,11 +358,7 @@ def correspond_extra(ctx, res, driver_file, n_quick, n_thorough):
                     kind, nstep, im, mo, sp, why = pr
                     ops = h["ops"] if nstep is None else h["ops"][:nstep + 1]
                     inp = {"btime": h["btime"], "ops": ops, "family": fam, "hyp": h.get("hyp", True)}
-                    finding = None
-                    if kind == "spec" and in_region:
-                        finding = FINDING_BT0
-                        res.known_seen[FINDING_BT0] = res.known_seen.get(FINDING_BT0, 0) + 1
-                    res.disagree(kind, inp, im, mo, sp, note="step %s: %s" % (nstep, why), finding=finding)
+                    res.disagree(kind, inp, im, mo, sp, note="step %s: %s" % (nstep, why))
     finally:
         impl.close()
 
@@ -404,6 +401,7 @@ def replay(ctx, rp, driver_file):
 
 
 def check_finding(ctx, fnd, driver_file):
+    # C02-boottime-zero is FIXED (/repo 29257b1) and no longer listed; kept so that a re-listed entry would be replayed
     if fnd.get("id") != FINDING_BT0:
         return "unknown"
     impl = Impl2(ctx)
